@@ -30,10 +30,14 @@ type UnitResult struct {
 }
 
 func newUnit(p *Program, db *ContractDB, root *ssa.Function) *Unit {
-	u := &Unit{prog: p, root: root, rootKey: funcKey(root), ctx: newCtx(), db: db, siteSort: map[string]string{}, m0: map[string]string{},
+	rk := ""
+	if root != nil {
+		rk = funcKey(root)
+	}
+	u := &Unit{prog: p, root: root, rootKey: rk, ctx: newCtx(), db: db, siteSort: map[string]string{}, m0: map[string]string{},
 		inlined: map[string]bool{}, usedCtr: map[string]bool{}, globals: map[string]string{}, strConsts: map[string]string{},
 		typeIDs: map[string]int{}, errIDs: map[string]string{}, ordCache: map[*ssa.Function]map[ssa.Instruction]map[string]int{},
-		trusted: map[string]bool{}, specDefs: map[string]*specDef{}}
+		trusted: map[string]bool{}, specDefs: map[string]*specDef{}, usedLemmas: map[string]bool{}}
 	a0 := u.ctx.declare("alloc0", SInt)
 	u.ctx.assert("alloc0", le("65536", a0))
 	u.entryMem = &Mem{arr: map[string]string{}, alloc: a0}
@@ -361,19 +365,35 @@ func encodeUnit(p *Program, db *ContractDB, root *ssa.Function) (res *UnitResult
 			u.ctx.assert("requires:"+c.Label, term)
 		}
 	}
+	if ct != nil {
+		u.assumeLemmas(root, ct, f.params, entry)
+	}
 	u.reqMark = u.ctx.mark()
 	ret, results := f.run(st)
 	if ct != nil {
-		env := u.funcEnv(root, f.params, results, ret, entry)
-		for _, c := range ct.Ensures {
-			term, quant, err := u.evalClauseBool(env, c)
-			if err != nil {
-				u.specErrors = append(u.specErrors, fmt.Sprintf("%s ensures %v", u.rootKey, err))
-				continue
+		u.ctx.curBlk = -1
+		// one obligation per clause and per return statement (smaller queries, precise diagnostics)
+		for ri, r := range f.rets {
+			rst := &state{reach: r.reach, mem: r.mem}
+			env := u.funcEnv(root, f.params, r.vals, rst, entry)
+			suffix := ""
+			if len(f.rets) > 1 {
+				suffix = fmt.Sprintf("@ret%d", ri+1)
 			}
-			o := u.oblige(f, ret, "ensures", c.Label, root.Pos(), term)
-			o.Quant = quant
+			for _, c := range ct.Ensures {
+				term, quant, err := u.evalClauseBool(env, c)
+				if err != nil {
+					if ri == 0 {
+						u.specErrors = append(u.specErrors, fmt.Sprintf("%s ensures %v", u.rootKey, err))
+					}
+					continue
+				}
+				o := u.oblige(f, rst, "ensures", c.Label+suffix, r.pos, term)
+				o.Quant = quant
+				o.Blk = r.blk
+			}
 		}
+		_ = results
 		if ct.HasMod || ct.Mode == "contract" {
 			u.frameObligations(f, ct, entry, ret)
 		}
@@ -421,7 +441,8 @@ func (u *Unit) frameObligations(f *Frame, ct *FuncContract, entry, ret *state) {
 		}
 		a := u.ctx.freshConst("frame.a", SInt)
 		cond := implies(and(lt(a, entry.mem.alloc), not(inAny(ranges[s], a))), eq(sel(mf, a), sel(m0, a)))
-		u.oblige(f, ret, "frame", s, f.fn.Pos(), cond)
+		fo := u.oblige(f, ret, "frame", s, f.fn.Pos(), cond)
+		fo.Blk = -1
 	}
 }
 
@@ -433,10 +454,11 @@ func (u *Unit) script(o *Obligation) string { return u.scriptOpt(o, false) }
 // Dropping assumptions is always sound for a proof attempt (unsat stays unsat).
 func (u *Unit) scriptSliced(o *Obligation) string {
 	items := u.ctx.items[:o.Mark]
+	anc := u.ancestorBlocks(o.Blk)
 	// symbol frequencies among asserts
 	freq := map[string]int{}
-	for _, it := range items {
-		if it.kind == itAssert {
+	for i, it := range items {
+		if it.kind == itAssert && relevantItem(&items[i], anc) {
 			for _, s := range it.syms {
 				if _, ok := u.ctx.names[s]; ok {
 					freq[s]++
@@ -474,7 +496,7 @@ func (u *Unit) scriptSliced(o *Obligation) string {
 	for changed := true; changed; {
 		changed = false
 		for i, it := range items {
-			if it.kind != itAssert || included[i] {
+			if it.kind != itAssert || included[i] || !relevantItem(&items[i], anc) {
 				continue
 			}
 			hit := false
@@ -515,9 +537,46 @@ func (u *Unit) scriptSliced(o *Obligation) string {
 // which are then confirmed (or discarded) by replay on the real code.
 func (u *Unit) scriptQF(o *Obligation) string { return u.scriptOpt(o, true) }
 
+// ancestorBlocks: blocks of the root function from which block blk is reachable without back edges (and blk itself).
+func (u *Unit) ancestorBlocks(blk int) map[int]bool {
+	if u.root == nil || blk < 0 || blk >= len(u.root.Blocks) {
+		return nil
+	}
+	if u.ancCache == nil {
+		u.ancCache = map[int]map[int]bool{}
+	}
+	if a, ok := u.ancCache[blk]; ok {
+		return a
+	}
+	anc := map[int]bool{blk: true}
+	work := []*ssa.BasicBlock{u.root.Blocks[blk]}
+	for len(work) > 0 {
+		x := work[len(work)-1]
+		work = work[:len(work)-1]
+		for _, p := range x.Preds {
+			if isBackEdge(p, x) || anc[p.Index] {
+				continue
+			}
+			anc[p.Index] = true
+			work = append(work, p)
+		}
+	}
+	u.ancCache[blk] = anc
+	return anc
+}
+
+// relevantItem: assumptions created while encoding a block that cannot precede the obligation's block are irrelevant.
+func relevantItem(it *item, anc map[int]bool) bool {
+	if it.kind != itAssert || anc == nil || it.blk < 0 {
+		return true
+	}
+	return anc[it.blk]
+}
+
 func (u *Unit) scriptOpt(o *Obligation, dropQuant bool) string {
 	var b strings.Builder
 	items := u.ctx.items[:o.Mark]
+	anc := u.ancestorBlocks(o.Blk)
 	// cone of influence over definitions: keep all asserts, drop unused define/declare
 	needed := map[string]bool{}
 	var work []string
@@ -531,9 +590,9 @@ func (u *Unit) scriptOpt(o *Obligation, dropQuant bool) string {
 	}
 	push(symsOf(o.Guard))
 	push(symsOf(o.Cond))
-	for _, it := range items {
-		if it.kind == itAssert {
-			push(it.syms)
+	for i := range items {
+		if items[i].kind == itAssert && relevantItem(&items[i], anc) {
+			push(items[i].syms)
 		}
 	}
 	for len(work) > 0 {
@@ -551,6 +610,9 @@ func (u *Unit) scriptOpt(o *Obligation, dropQuant bool) string {
 				continue
 			}
 		case itAssert:
+			if !relevantItem(&it, anc) {
+				continue
+			}
 			if dropQuant && (strings.Contains(it.text, "(forall ") || strings.Contains(it.text, "(exists ")) {
 				continue
 			}
@@ -611,3 +673,125 @@ func solveUnit(res *UnitResult, opt Options) {
 }
 
 var _ = token.NoPos
+
+
+// assumeLemmas instantiates the lemmas named by "use name(args)" clauses: the lemma's parameters are bound to the
+// argument values (evaluated in the entry state), its induction variable is universally quantified.
+func (u *Unit) assumeLemmas(fn *ssa.Function, ct *FuncContract, params []Val, entry *state) {
+	for i, e := range ct.UseExprs {
+		call, ok := e.(*ast.CallExpr)
+		if !ok {
+			u.specErrors = append(u.specErrors, fmt.Sprintf("%s: use %s: expected name(args)", ct.Key, ct.Uses[i]))
+			continue
+		}
+		id, ok := call.Fun.(*ast.Ident)
+		if !ok {
+			continue
+		}
+		lm := u.db.Lemmas[ct.Pkg+"."+id.Name]
+		if lm == nil {
+			u.specErrors = append(u.specErrors, fmt.Sprintf("%s: unknown lemma %s", ct.Key, id.Name))
+			continue
+		}
+		func() {
+			defer func() {
+				if r := recover(); r != nil {
+					u.specErrors = append(u.specErrors, fmt.Sprintf("%s: use %s: %v", ct.Key, ct.Uses[i], r))
+				}
+			}()
+			env := u.funcEnv(fn, params, nil, entry, entry)
+			// bind lemma parameters (all except the induction variable) to the arguments
+			var nonInd []specParam
+			for _, p := range lm.Params {
+				if p.Name != lm.IndVar {
+					nonInd = append(nonInd, p)
+				}
+			}
+			if len(call.Args) != len(nonInd) {
+				specErrf("lemma %s expects %d arguments", lm.Name, len(nonInd))
+			}
+			lenv := &Env{u: u, st: entry, old: entry, pkg: env.pkg, bound: map[string]Val{}}
+			for k, p := range nonInd {
+				lenv.bound[p.Name] = coerce(env.eval(call.Args[k]), lenv.specType(lm.Pkg, p.Type))
+			}
+			qv := quoteSym("q!" + lm.IndVar)
+			lenv.bound[lm.IndVar] = intVal(qv)
+			body := lenv.evalBool(lm.Stmt)
+			if lm.Trigger != nil {
+				tr := lenv.eval(lm.Trigger)
+				u.ctx.assert("lemma:"+lm.Name, fmt.Sprintf("(forall ((%s Int)) (! %s :pattern (%s)))", qv, body, tr.S[0]))
+			} else {
+				u.ctx.assert("lemma:"+lm.Name, fmt.Sprintf("(forall ((%s Int)) %s)", qv, body))
+			}
+			u.usedLemmas[lm.Pkg+"."+lm.Name] = true
+		}()
+	}
+}
+
+// encodeLemma proves a lemma by induction on its induction variable: base (k <= from) and step (k >= from, P(k) |- P(k+1)).
+func encodeLemma(p *Program, db *ContractDB, key string) *UnitResult {
+	lm := db.Lemmas[key]
+	res := &UnitResult{Key: "lemma:" + key}
+	if lm == nil {
+		res.Rejected = "no such lemma"
+		return res
+	}
+	u := newUnit(p, db, nil)
+	u.rootKey = "lemma:" + key
+	res.unit = u
+	defer func() {
+		if r := recover(); r != nil {
+			res.Rejected = fmt.Sprint(r)
+		}
+	}()
+	var pkg *types.Package
+	for _, sp := range p.SSA.AllPackages() {
+		if strings.HasPrefix(sp.Pkg.Path(), modRoot) && shortPkg(sp.Pkg.Path()) == lm.Pkg {
+			pkg = sp.Pkg
+		}
+	}
+	st := &state{reach: "true", mem: u.entryMem.clone()}
+	env := &Env{u: u, st: st, old: st, pkg: pkg, bound: map[string]Val{}}
+	k := ""
+	for _, prm := range lm.Params {
+		t := env.specType(lm.Pkg, prm.Type)
+		v := u.havocVal("lm."+prm.Name, t, st.mem, "true")
+		env.bound[prm.Name] = v
+		if prm.Name == lm.IndVar {
+			k = v.S[0]
+		}
+	}
+	if k == "" {
+		res.Rejected = "lemma has no induction variable"
+		return res
+	}
+	from := lm.From
+	if from == "" {
+		from = "0"
+	}
+	fe, err := parseSpecExpr(from)
+	if err != nil {
+		res.Rejected = "bad induction base"
+		return res
+	}
+	lo := env.evalInt(fe)
+	pk := env.evalBool(lm.Stmt)
+	// base
+	base := &state{reach: u.ctx.def("lm.base", SBool, le(k, lo)), mem: st.mem}
+	o := u.oblige(nil, base, "lemma", lm.Name+"/base", 0, pk)
+	o.Quant = true
+	// the obligation above was added as an assumption; that is harmless for the step (it is implied by the hypothesis there)
+	stepEnv := *env
+	stepEnv.bound = map[string]Val{}
+	for n, v := range env.bound {
+		stepEnv.bound[n] = v
+	}
+	stepEnv.bound[lm.IndVar] = intVal(add(k, "1"))
+	pk1 := stepEnv.evalBool(lm.Stmt)
+	step := &state{reach: u.ctx.def("lm.step", SBool, and(le(lo, k), pk)), mem: st.mem}
+	o2 := u.oblige(nil, step, "lemma", lm.Name+"/step", 0, pk1)
+	o2.Quant = true
+	res.Obls = u.obls
+	res.SpecErrors = u.specErrors
+	return res
+}
